@@ -15,6 +15,7 @@ import (
 	"fmt"
 	"sync/atomic"
 	"time"
+	"unsafe"
 )
 
 type vsWorld struct {
@@ -290,4 +291,238 @@ func vsRun(out *vout, rng *vrand, n, firstID int, mode string) {
 	}
 	w.client.Close()
 	w.server.Close()
+}
+
+// ---------------------------------------------------------------------------------------------
+// level (ii), mixed transport: one stream alternates socket-sized flushes (a Reserve larger than the
+// largest slice class cannot be placed in shared memory) and flushes that fit into shared memory,
+// while the receiver's event loop is kept busy (a blocking OnRemoteClose of a helper stream: the loop
+// is inside a drain of the queue).  When the loop goes on it drains the queue before it reads the
+// socket: a flush that went back to the queue after a fallback flush would overtake it.  The reader
+// then reads with mixed operations and the byte-queue oracle compares the sequence.  The model
+// evaluates these histories with cfg = [] (bytes, n, Len only).
+// ---------------------------------------------------------------------------------------------
+type vsBlockCB struct {
+	entered chan struct{}
+	release chan struct{}
+}
+
+func (c *vsBlockCB) OnData(reader BufferReader) {}
+func (c *vsBlockCB) OnLocalClose()              {}
+func (c *vsBlockCB) OnRemoteClose() {
+	close(c.entered)
+	<-c.release
+}
+
+func vsPendingBytes(ss *Stream) int {
+	ss.pendingData.Lock()
+	defer ss.pendingData.Unlock()
+	n := 0
+	mem := ss.session.bufferManager.mem
+	for _, u := range ss.pendingData.unread {
+		if u.fallbackSlice != nil {
+			n += u.fallbackSlice.size()
+			continue
+		}
+		off := u.offset
+		for steps := 0; steps < 4096; steps++ {
+			h := bufferHeader(mem[off : off+bufferHeaderSize])
+			n += int(*(*uint32)(unsafe.Pointer(&h[bufferSizeOffset])))
+			if !h.hasNext() {
+				break
+			}
+			off = h.nextBufferOffset()
+		}
+	}
+	return n
+}
+
+func vsMixedCase(w *vsWorld, rng *vrand, id int) *vpCase {
+	c := &vpCase{ID: id, Mode: "c06m", Cfg: [][2]int{}}
+	fail := func(s string) *vpCase { c.Oracle = append(c.Oracle, "harness|"+s); return c }
+	open := func(first byte) (*Stream, *Stream, error) {
+		a, err := w.client.OpenStream()
+		if err != nil {
+			return nil, nil, err
+		}
+		if err = a.BufferWriter().WriteByte(first); err == nil {
+			err = a.Flush(false)
+		}
+		if err != nil {
+			return nil, nil, err
+		}
+		b, err := w.server.AcceptStream()
+		if err != nil {
+			return nil, nil, err
+		}
+		b.SetReadDeadline(time.Now().Add(20 * time.Second))
+		if x, e := b.BufferReader().ReadByte(); e != nil || x != first {
+			return nil, nil, fmt.Errorf("preamble read: %v %d", e, x)
+		}
+		b.BufferReader().ReleasePreviousRead()
+		return a, b, nil
+	}
+	cx, sx, err := open('x')
+	if err != nil {
+		return fail("helper stream: " + err.Error())
+	}
+	cs, ss, err := open('y')
+	if err != nil {
+		return fail("stream: " + err.Error())
+	}
+	defer func() { cs.Close(); ss.Close(); sx.Close() }()
+	cb := &vsBlockCB{entered: make(chan struct{}), release: make(chan struct{})}
+	if err = sx.SetCallbacks(cb); err != nil {
+		return fail("SetCallbacks: " + err.Error())
+	}
+	if err = cx.Close(); err != nil {
+		return fail("close of the helper stream: " + err.Error())
+	}
+	select {
+	case <-cb.entered:
+	case <-time.After(10 * time.Second):
+		return fail("the helper stream's OnRemoteClose was not called")
+	}
+	blocked := true
+	p := &vpipe{bm: w.client.bufferManager, c: c, feat: map[string]bool{"level-ii": true, "mixed-transport": true}, real: true, snd: cs, rcv: ss}
+	p.st = [2]*Stream{cs, ss}
+	p.dirs[1].wabs = vpDirBase
+	defer func() {
+		if blocked {
+			close(cb.release)
+		}
+		for f := range p.feat {
+			c.Feat = append(c.Feat, f)
+		}
+	}()
+	arrive := func(want int) error {
+		if !vsWait(func() bool { return ss.recvBuf.Len()+vsPendingBytes(ss) >= want }, 20*time.Second) {
+			return fmt.Errorf("flushed bytes did not arrive (%d of %d at the receiver)", ss.recvBuf.Len()+vsPendingBytes(ss), want)
+		}
+		return nil
+	}
+	p.realFlush = func() error {
+		n := cs.sendBuf.Len()
+		wantBytes := len(p.avail) + len(p.inflight) + n
+		fbBefore := atomic.LoadUint64(&w.client.stats.fallbackWriteCount)
+		if e := cs.Flush(false); e != nil {
+			return e
+		}
+		if n > 0 {
+			if atomic.LoadUint64(&w.client.stats.fallbackWriteCount) != fbBefore {
+				p.feat["fallback"] = true
+			} else {
+				p.feat["shm"] = true
+			}
+		}
+		if blocked || n == 0 {
+			return nil // the receiver's event loop is busy: nothing arrives now
+		}
+		return arrive(wantBytes)
+	}
+	run := func(op vpOp) bool {
+		c.Ops = append(c.Ops, op)
+		return p.exec(len(c.Ops)-1, op)
+	}
+	big := func() int { return int(defaultSingleBufferSize) + 1 + rng.intn(2000) }
+	small := func() int { return 1 + rng.intn(3000) }
+	write := func(socket bool) bool {
+		if socket {
+			n := big()
+			ok := run(vpOp{K: "WR", A: p.wabs, N: n}) // a Reserve above the largest class: heap slice -> socket
+			p.wabs += n
+			return ok
+		}
+		n := small()
+		k := []string{"WB", "WS", "WR"}[rng.intn(3)]
+		ok := run(vpOp{K: k, A: p.wabs, N: n})
+		p.wabs += n
+		return ok
+	}
+	// phase 1: the receiver is busy; a socket-sized flush, then flushes that fit shared memory (and more of both)
+	first := rng.intn(3) // 0: big first; 1: small, then big; 2: big, small, big
+	seq := [][]bool{{true, false}, {false, true, false}, {true, false, true, false}}[first]
+	for len(seq) < 6 && rng.chance(40) {
+		seq = append(seq, rng.chance(40))
+	}
+	for _, sock := range seq {
+		if !write(sock) || !run(vpOp{K: "FL"}) {
+			return c
+		}
+	}
+	// phase 2: the event loop goes on; wait until everything flushed so far is at the receiver
+	blocked = false
+	close(cb.release)
+	if err = arrive(len(p.avail) + len(p.inflight)); err != nil {
+		p.fail("C06:flushed-bytes-never-arrived", err.Error())
+		return c
+	}
+	rd := func() bool {
+		all := len(p.avail) + len(p.inflight)
+		if all == 0 {
+			return true
+		}
+		n := 1 + rng.intn(all)
+		if rng.chance(40) {
+			n = 1 + rng.intn(200)
+			if n > all {
+				n = all
+			}
+		}
+		k := []string{"RB", "RB", "PK", "RS", "DC", "RD", "RY"}[rng.intn(7)]
+		if k == "RY" {
+			n = 1
+		}
+		return run(vpOp{K: k, N: n})
+	}
+	for i := 0; i < 3+rng.intn(6); i++ {
+		if !rd() {
+			return c
+		}
+	}
+	// phase 3: more of both kinds with the receiver following
+	for i := 0; i < rng.intn(4); i++ {
+		if !write(rng.chance(40)) || !run(vpOp{K: "FL"}) || !rd() {
+			return c
+		}
+	}
+	for len(p.avail)+len(p.inflight) > 0 {
+		if !run(vpOp{K: "RB", N: 1 + rng.intn(len(p.avail)+len(p.inflight))}) {
+			return c
+		}
+	}
+	run(vpOp{K: "RL"})
+	return c
+}
+
+func vsMixedRun(out *vout, rng *vrand, n, firstID int) {
+	if n <= 0 {
+		return
+	}
+	debugMode = true
+	conf := testConf()
+	conf.ShareMemoryBufferCap = 1 << 20
+	conf.BufferSliceSizes = []*SizePercentPair{{Size: defaultSingleBufferSize, Percent: 100}} // one class: a larger Reserve cannot be shm
+	clientConn, serverConn := testConn()
+	var server *Session
+	var serr error
+	ok := make(chan struct{})
+	go func() {
+		sc := *conf
+		server, serr = newSession(&sc, serverConn, false)
+		close(ok)
+	}()
+	cc := *conf
+	client, err := newSession(&cc, clientConn, true)
+	<-ok
+	if err != nil || serr != nil {
+		out.emit(&vpCase{ID: firstID, Mode: "c06m", Cfg: [][2]int{}, Oracle: []string{fmt.Sprintf("harness|cannot build the session pair: %v %v", err, serr)}})
+		return
+	}
+	w := &vsWorld{client: client, server: server}
+	for i := 0; i < n; i++ {
+		out.emit(vsMixedCase(w, rng, firstID+i))
+	}
+	client.Close()
+	server.Close()
 }
